@@ -171,6 +171,9 @@ func runC03(c *sim.Ctx) *sim.Violation {
 	if t.Bool(1, 150) {
 		a = gen.Bulk(t, c.Thorough) // thousands of tiny list elements, order and duplicates must survive
 		c.Count("probe.bulk-list-frame")
+	} else if t.Bool(1, 400) {
+		a = gen.BulkMedium(t)
+		c.Count("probe.bulk-of-kilobyte-strings")
 	} else {
 		a = gen.Packet(t, specCfg(c))
 	}
